@@ -1043,4 +1043,268 @@ theorem txKeysOf_get (keys : List Str) (kw : Str) :
   simp only [txKey_eq_kwOf_aux]
 
 
+/-! ### keyword_search: the table since fix 1e9b608 (sorted keys, exact headings name themselves) -/
+
+theorem char_eq_of_toNat {a b : Char} (h : a.toNat = b.toNat) : a = b := by
+  apply Char.ext; apply UInt32.toNat_inj.mp; exact h
+
+theorem strLe_refl : ∀ a : Str, strLe a a = true
+  | [] => rfl
+  | x :: xs => by simp [strLe, strLe_refl xs]
+
+theorem strLe_total : ∀ a b : Str, (strLe a b || strLe b a) = true
+  | [], _ => by simp [strLe]
+  | _ :: _, [] => by simp [strLe]
+  | x :: xs, y :: ys => by
+    have := strLe_total xs ys
+    simp only [strLe]
+    by_cases h1 : x.toNat < y.toNat
+    · simp [h1]
+    · by_cases h2 : y.toNat < x.toNat
+      · simp [h1, h2]
+      · simpa [h1, h2] using this
+
+theorem strLe_antisymm : ∀ a b : Str, strLe a b = true → strLe b a = true → a = b
+  | [], [], _, _ => rfl
+  | [], _ :: _, _, h => by simp [strLe] at h
+  | _ :: _, [], h, _ => by simp [strLe] at h
+  | x :: xs, y :: ys, h1, h2 => by
+    simp only [strLe] at h1 h2
+    by_cases a : x.toNat < y.toNat
+    · have : ¬ y.toNat < x.toNat := by omega
+      simp [a, this] at h2
+    · by_cases b : y.toNat < x.toNat
+      · simp [a, b] at h1
+      · simp [a, b] at h1 h2
+        have e : x = y := char_eq_of_toNat (by omega)
+        rw [e, strLe_antisymm xs ys h1 h2]
+
+theorem strLe_trans : ∀ a b c : Str, strLe a b = true → strLe b c = true → strLe a c = true
+  | [], _, _, _, _ => by simp [strLe]
+  | _ :: _, [], _, h, _ => by simp [strLe] at h
+  | _ :: _, _ :: _, [], _, h => by simp [strLe] at h
+  | x :: xs, y :: ys, z :: zs, h1, h2 => by
+    simp only [strLe] at h1 h2 ⊢
+    by_cases a : x.toNat < y.toNat
+    · by_cases b : y.toNat < z.toNat
+      · have : x.toNat < z.toNat := by omega
+        simp [this]
+      · by_cases b' : z.toNat < y.toNat
+        · simp [b, b'] at h2
+        · have : x.toNat < z.toNat := by omega
+          simp [this]
+    · by_cases a' : y.toNat < x.toNat
+      · simp [a, a'] at h1
+      · simp [a, a'] at h1
+        by_cases b : y.toNat < z.toNat
+        · have : x.toNat < z.toNat := by omega
+          simp [this]
+        · by_cases b' : z.toNat < y.toNat
+          · simp [b, b'] at h2
+          · simp [b, b'] at h2
+            have c1 : ¬ x.toNat < z.toNat := by omega
+            have c2 : ¬ z.toNat < x.toNat := by omega
+            simp [c1, c2]
+            exact strLe_trans xs ys zs h1 h2
+
+
+theorem insertSorted_perm (k : Str) : ∀ l : List Str, (insertSorted k l).Perm (k :: l)
+  | [] => List.Perm.refl _
+  | x :: xs => by
+    simp only [insertSorted]
+    split
+    · exact List.Perm.refl _
+    · exact ((insertSorted_perm k xs).cons x).trans (List.Perm.swap k x xs)
+
+theorem sortKeys_perm : ∀ l : List Str, (sortKeys l).Perm l
+  | [] => List.Perm.refl _
+  | k :: ks => (insertSorted_perm k (sortKeys ks)).trans ((sortKeys_perm ks).cons k)
+
+theorem insertSorted_pairwise (k : Str) : ∀ l : List Str, l.Pairwise (fun a b => strLe a b = true) →
+    (insertSorted k l).Pairwise (fun a b => strLe a b = true)
+  | [], _ => by simp [insertSorted]
+  | x :: xs, h => by
+    simp only [insertSorted]
+    have hx := List.pairwise_cons.mp h
+    split
+    · rename_i hk
+      refine List.pairwise_cons.mpr ⟨?_, h⟩
+      intro b hb
+      rcases List.mem_cons.mp hb with rfl | hb
+      · exact hk
+      · exact strLe_trans _ _ _ hk (hx.1 b hb)
+    · rename_i hk
+      have hxk : strLe x k = true := by
+        have := strLe_total k x
+        simp only [Bool.or_eq_true] at this
+        rcases this with h' | h'
+        · exact absurd h' hk
+        · exact h'
+      refine List.pairwise_cons.mpr ⟨?_, insertSorted_pairwise k xs hx.2⟩
+      intro b hb
+      have : b ∈ k :: xs := (insertSorted_perm k xs).mem_iff.mp hb
+      rcases List.mem_cons.mp this with rfl | hb'
+      · exact hxk
+      · exact hx.1 b hb'
+
+theorem sortKeys_pairwise : ∀ l : List Str, (sortKeys l).Pairwise (fun a b => strLe a b = true)
+  | [] => List.Pairwise.nil
+  | k :: ks => insertSorted_pairwise k _ (sortKeys_pairwise ks)
+
+/-- sorting depends on the SET of keys only -/
+theorem sortKeys_perm_eq (l₁ l₂ : List Str) (h : l₁.Perm l₂) : sortKeys l₁ = sortKeys l₂ :=
+  List.Perm.eq_of_pairwise (fun a b _ _ h1 h2 => strLe_antisymm a b h1 h2) (sortKeys_pairwise l₁) (sortKeys_pairwise l₂)
+    ((sortKeys_perm l₁).trans (h.trans (sortKeys_perm l₂).symm))
+
+/-! the `update` step as a map over a table with distinct keys -/
+
+theorem insKey_nodup (acc : List Str) (k : Str) (h : acc.Nodup) : (insKey acc k).Nodup := by
+  unfold insKey
+  split
+  · exact h
+  · rename_i hk
+    exact List.nodup_append.mpr ⟨h, by simp, by intro a ha b hb; simp at hb; subst hb; intro e; exact hk (e ▸ ha)⟩
+
+theorem keys_foldl_nodup {β : Type} (ps : List (Str × β)) : ∀ d : List (Str × β), (d.map (·.1)).Nodup →
+    ((ps.foldl (fun d p => dictSet d p.1 p.2) d).map (·.1)).Nodup := by
+  induction ps with
+  | nil => intro d h; exact h
+  | cons p rest ih =>
+    intro d h
+    simp only [List.foldl_cons]
+    apply ih
+    rw [keys_dictSet]
+    exact insKey_nodup _ _ h
+
+theorem keys_fromPairs_nodup {β : Type} (ps : List (Str × β)) : ((fromPairs ps).map (·.1)).Nodup :=
+  keys_foldl_nodup ps [] (by simp)
+
+theorem dictGet_isSome_iff {β : Type} (d : List (Str × β)) (k : Str) : (dictGet d k).isSome = true ↔ k ∈ d.map (·.1) := by
+  induction d with
+  | nil => simp [dictGet]
+  | cons p rest ih =>
+    simp only [dictGet, List.map_cons, List.mem_cons]
+    by_cases h : p.1 = k
+    · simp [h]
+    · have h' : ¬ k = p.1 := fun e => h e.symm
+      simp [h, h', ih]
+
+def selfAt (k : Str) (p : Str × Str) : Str × Str := if p.1 = k then (k, k) else p
+
+theorem map_selfAt_absent (k : Str) (d : Dict) (h : k ∉ d.map (·.1)) : d.map (selfAt k) = d := by
+  induction d with
+  | nil => rfl
+  | cons p rest ih =>
+    have h1 : ¬ p.1 = k := fun e => h (by simp [e])
+    have h2 : k ∉ rest.map (·.1) := fun e => h (by simp [e])
+    simp [selfAt, h1, ih h2]
+
+theorem dictSet_eq_map (k : Str) : ∀ d : Dict, (d.map (·.1)).Nodup → k ∈ d.map (·.1) → dictSet d k k = d.map (selfAt k) := by
+  intro d
+  induction d with
+  | nil => intro _ h; simp at h
+  | cons p rest ih =>
+    intro hn hk
+    have hn' := List.nodup_cons.mp hn
+    simp only [dictSet]
+    by_cases h : p.1 = k
+    · have : k ∉ rest.map (·.1) := by rw [← h]; exact hn'.1
+      simp only [h, if_true, List.map_cons, selfAt, map_selfAt_absent k rest this]
+    · have hk' : k ∈ rest.map (·.1) := by
+        simp only [List.map_cons, List.mem_cons] at hk
+        rcases hk with e | e
+        · exact absurd e.symm h
+        · exact e
+      simp only [h, if_false, List.map_cons, selfAt, ih hn'.2 hk']
+
+theorem updSelf_eq_map (d : Dict) (k : Str) (hn : (d.map (·.1)).Nodup) : updSelf d k = d.map (selfAt k) := by
+  unfold updSelf
+  by_cases h : k ∈ d.map (·.1)
+  · rw [if_pos ((dictGet_isSome_iff d k).mpr h)]
+    exact dictSet_eq_map k d hn h
+  · have : ¬ (dictGet d k).isSome = true := fun e => h ((dictGet_isSome_iff d k).mp e)
+    rw [if_neg this, map_selfAt_absent k d h]
+
+/-- the table after the `update`: every keyword that is itself a heading names itself -/
+def selfIn (keys : List Str) (p : Str × Str) : Str × Str := if p.1 ∈ keys then (p.1, p.1) else p
+
+theorem keys_map_selfAt (k : Str) (d : Dict) : (d.map (selfAt k)).map (·.1) = d.map (·.1) := by
+  rw [List.map_map]
+  apply List.map_congr_left
+  intro p _
+  simp only [Function.comp, selfAt]
+  split
+  · rename_i h; exact h.symm
+  · rfl
+
+theorem foldl_updSelf (keys : List Str) : ∀ d : Dict, (d.map (·.1)).Nodup →
+    keys.foldl updSelf d = d.map (selfIn keys) := by
+  induction keys with
+  | nil =>
+    intro d _
+    simp only [List.foldl_nil]
+    conv => lhs; rw [← List.map_id d]
+    apply List.map_congr_left
+    intro p _; simp [selfIn]
+  | cons k ks ih =>
+    intro d hn
+    simp only [List.foldl_cons]
+    rw [updSelf_eq_map d k hn, ih _ (by rw [keys_map_selfAt]; exact hn), List.map_map]
+    apply List.map_congr_left
+    intro p _
+    simp only [Function.comp, selfAt, selfIn]
+    by_cases h : p.1 = k
+    · simp [h]
+    · have h' : ¬ k = p.1 := fun e => h e.symm
+      by_cases h2 : p.1 ∈ ks <;> simp [h, h2]
+
+theorem txKeysFix_eq (keys : List Str) : txKeysFix keys = (txKeysOf (sortKeys keys)).map (selfIn keys) := by
+  unfold txKeysFix
+  exact foldl_updSelf keys _ (keys_fromPairs_nodup _)
+
+theorem selfIn_perm (k₁ k₂ : List Str) (h : k₁.Perm k₂) : selfIn k₁ = selfIn k₂ := by
+  funext p
+  simp only [selfIn, h.mem_iff]
+
+theorem txKeysFix_perm (k₁ k₂ : List Str) (h : k₁.Perm k₂) : txKeysFix k₁ = txKeysFix k₂ := by
+  rw [txKeysFix_eq, txKeysFix_eq, sortKeys_perm_eq k₁ k₂ h, selfIn_perm k₁ k₂ h]
+
+theorem dictGet_map_selfIn (keys : List Str) (kw : Str) : ∀ d : Dict,
+    dictGet (d.map (selfIn keys)) kw = (dictGet d kw).map (fun h => if kw ∈ keys then kw else h) := by
+  intro d
+  induction d with
+  | nil => rfl
+  | cons p rest ih =>
+    simp only [List.map_cons, selfIn]
+    by_cases h1 : p.1 ∈ keys
+    · by_cases h2 : p.1 = kw
+      · subst h2; simp [dictGet, h1]
+      · simp only [h1, if_true, dictGet, h2, if_false]; exact ih
+    · by_cases h2 : p.1 = kw
+      · subst h2; simp [dictGet, h1]
+      · simp only [h1, if_false, dictGet, h2]; exact ih
+
+/-- which heading a keyword names since fix 1e9b608 -/
+theorem txKeysFix_get (keys : List Str) (kw : Str) :
+    dictGet (txKeysFix keys) kw
+      = ((sortKeys keys).reverse.find? (fun k => kwOf k = kw)).map (fun h => if kw ∈ keys then kw else h) := by
+  rw [txKeysFix_eq, dictGet_map_selfIn, txKeysOf_get]
+
+/-- in a sorted list, the last element with a property is the greatest with it -/
+theorem last_found_is_greatest (p : Str → Bool) (l : List Str) (hl : l.Pairwise (fun a b => strLe a b = true))
+    (h : Str) (hf : l.reverse.find? p = some h) : ∀ k ∈ l, p k = true → strLe k h = true := by
+  obtain ⟨_, as, bs, e, hno⟩ := List.find?_eq_some_iff_append.mp hf
+  have el : l = bs.reverse ++ h :: as.reverse := by
+    have := congrArg List.reverse e
+    simpa using this
+  intro k hk hp
+  rw [el] at hk hl
+  rcases List.mem_append.mp hk with h1 | h1
+  · exact (List.pairwise_append.mp hl).2.2 k h1 h (by simp)
+  · rcases List.mem_cons.mp h1 with rfl | h2
+    · exact strLe_refl _
+    · have := hno k (by simpa using h2)
+      simp [hp] at this
+
+
 end IV.TextFormats
